@@ -538,7 +538,7 @@ func c29(c *an.Check) {
 			for _, b := range g.Blocks {
 				for _, ins := range b.Instrs {
 					if call, ok := ins.(*ssa.Call); ok && an.BuiltinName(call) == "delete" {
-						if lk, isLk := call.Call.Args[0].(*ssa.Lookup); isLk && an.IsFieldLoad(lk.X, chF) {
+						if lk := an.MapLookupOf(call.Call.Args[0]); lk != nil && an.IsFieldLoad(lk.X, chF) {
 							removes = true
 						}
 					}
@@ -692,7 +692,7 @@ func subscriptionReleaseDiscipline(c *an.Check) {
 				}
 				switch an.BuiltinName(call) {
 				case "delete":
-					if lk, isLk := call.Call.Args[0].(*ssa.Lookup); isLk && an.IsFieldLoad(lk.X, chF) {
+					if lk := an.MapLookupOf(call.Call.Args[0]); lk != nil && an.IsFieldLoad(lk.X, chF) {
 						dels = append(dels, call)
 						nDel++
 						// the key removed is the receiver itself
@@ -705,7 +705,7 @@ func subscriptionReleaseDiscipline(c *an.Check) {
 						}
 					}
 				case "clear":
-					if lk, isLk := call.Call.Args[0].(*ssa.Lookup); isLk && an.IsFieldLoad(lk.X, chF) {
+					if lk := an.MapLookupOf(call.Call.Args[0]); lk != nil && an.IsFieldLoad(lk.X, chF) {
 						bad = "Release clears the channel's whole subscription set: sibling subscriptions on the same channel are dropped and the channel is withdrawn from peers"
 					}
 				}
@@ -718,8 +718,8 @@ func subscriptionReleaseDiscipline(c *an.Check) {
 				if !ok || an.BuiltinName(call) != "len" {
 					continue
 				}
-				lk, isLk := call.Call.Args[0].(*ssa.Lookup)
-				if !isLk || !an.IsFieldLoad(lk.X, chF) {
+				lk := an.MapLookupOf(call.Call.Args[0])
+				if lk == nil || !an.IsFieldLoad(lk.X, chF) {
 					continue
 				}
 				for _, d := range dels {
